@@ -457,7 +457,52 @@ def gen_Tol():
     write("Tol", body, "magpylib/_src/fields/*.py (numeric literals and comparison operators of the ported kernels)")
 
 
-GENERATORS = {"Const": gen_Const, "Units": gen_Units, "Defaults": gen_Defaults, "Attr": gen_Attr, "PathPad": gen_PathPad, "Exits": gen_Exits, "Ndim": gen_Ndim, "Tol": gen_Tol}
+def gen_KernTrace():
+    """concolic trace of the real numpy kernels on one symbolic row per branch (translate/ktrace.py)"""
+    import ktrace
+
+    try:
+        text, table = ktrace.generate()
+    except ktrace.TraceRefusal as r:
+        raise Refusal(f"ktrace: {r}") from r
+    write("KernTrace", text, "magpylib/_src/fields/field_BH_{dipole,sphere,polyline,cuboid,triangle}.py (executed on symbolic rows)")
+    import json
+
+    with open(os.path.join(GEN_DIR, "KernTrace.table.json"), "w") as f:
+        json.dump(table, f, indent=0)
+
+
+def gen_CylSegGen():
+    """the CylinderSegment case functions, determine_cases, the assemblers and the dispatch tables, translated from the
+    source as it is now (translate/cylseg2lean.py) into the namespace MagpyVerif.Gen.CylSeg.  The reviewed, frozen copy of the
+    same translation is lean/MagpyVerif/Model/CylSeg.lean (namespace MagpyVerif.Kern.CylSeg) — the one the driver executes and the
+    theorems speak about; `cylseg2lean.cylseg_in_sync()` names the definitions in which the two differ, and the generated
+    `sync_*` theorems (`rfl`) make `lake build MagpyVerif.Gen.CylSegGen` fail on the same definitions."""
+    import cylseg2lean
+
+    try:
+        blocks = cylseg2lean.translate(os.path.join(REPO, cylseg2lean.REL_SRC))
+    except cylseg2lean.Refusal as r:
+        raise Refusal(str(r))
+    text = cylseg2lean.render(blocks, cylseg2lean.GEN_NS)
+    text = text.replace("import MagpyVerif.Model.CylSegBase\n", "import MagpyVerif.Model.CylSegBase\nimport MagpyVerif.Model.CylSeg\n", 1)
+    # keep only the part after the translator's own header comment (write() puts the GENERATED header)
+    text = text.split("\n", 1)[1]
+    # the argument record is the frozen model's (a changed `allargs` list then fails to elaborate, and is named by cylseg_in_sync)
+    for name, btxt in blocks:
+        if btxt.startswith("structure"):
+            text = text.replace(btxt, f"open MagpyVerif.Kern.CylSeg ({name})\n", 1)
+    end = f"\nend {cylseg2lean.GEN_NS}\n"
+    sync = ["", "/-! the regenerated definitions are the frozen model's, definition by definition -/"]
+    for name, btxt in blocks:
+        if btxt.startswith("structure"):
+            continue
+        sync.append(f"theorem sync_{name} : @{name} = @MagpyVerif.Kern.CylSeg.{name} := rfl")
+    text = text[: -len(end)] + "\n".join(sync) + "\n" + end
+    write("CylSegGen", text, cylseg2lean.REL_SRC)
+
+
+GENERATORS = {"KernTrace": gen_KernTrace, "Const": gen_Const, "Units": gen_Units, "Defaults": gen_Defaults, "Attr": gen_Attr, "PathPad": gen_PathPad, "Exits": gen_Exits, "Ndim": gen_Ndim, "Tol": gen_Tol, "CylSegGen": gen_CylSegGen}
 
 
 def main():
